@@ -56,7 +56,17 @@ func (l *c18Logger) Tracef(string, ...any)         {}
 func (l *c18Logger) Debugf(f string, a ...any)     { l.add(f, a...) }
 func (l *c18Logger) Infof(f string, a ...any)      { l.add(f, a...) }
 func (l *c18Logger) Warnf(f string, a ...any)      { l.add(f, a...) }
-func (l *c18Logger) Errorf(f string, a ...any)     { l.add(f, a...) }
+func (l *c18Logger) Errorf(f string, a ...any) {
+	if strings.HasPrefix(f, "Authentication failed for account %x") && len(a) > 0 {
+		if k, ok := a[0].([]byte); ok {
+			if v, ok := c18FailSinks.Load(string(k)); ok {
+				v.(*c18FailSink).add(string(k))
+				return
+			}
+		}
+	}
+	l.add(f, a...)
+}
 func (l *c18Logger) Criticalf(f string, a ...any)  { l.add(f, a...) }
 func (l *c18Logger) drain() []string {
 	l.mu.Lock()
@@ -65,6 +75,29 @@ func (l *c18Logger) drain() []string {
 	l.lines = nil
 	return r
 }
+
+// c18FailSink collects, per scenario, the accounts whose handshake failed
+// inside authenticate() (only the client knows which account a commitment
+// that never got a challenge belonged to).
+type c18FailSink struct {
+	mu   sync.Mutex
+	keys []string
+}
+
+func (s *c18FailSink) add(k string) {
+	s.mu.Lock()
+	s.keys = append(s.keys, k)
+	s.mu.Unlock()
+}
+func (s *c18FailSink) drain() []string {
+	s.mu.Lock()
+	defer s.mu.Unlock()
+	r := s.keys
+	s.keys = nil
+	return r
+}
+
+var c18FailSinks sync.Map // account key bytes -> *c18FailSink
 
 var (
 	c18Log       = &c18Logger{Logger: btclog.Disabled}
@@ -559,12 +592,28 @@ func runC18(r *Run) {
 			c18Handshake(r, accts[0], ch, c.Ver)
 		}
 	}
+	var fixedScn []c18Scn
 	for _, raw := range r.FixedCases() {
 		var c c18Case
 		if json.Unmarshal(raw, &c) == nil {
 			r.Count("case/fixed")
+			if c.Kind == "client" {
+				var scn struct {
+					Scenario *c18Scn `json:"scenario"`
+				}
+				var direct c18Scn
+				if json.Unmarshal(raw, &scn) == nil && scn.Scenario != nil {
+					fixedScn = append(fixedScn, *scn.Scenario)
+				} else if json.Unmarshal(raw, &direct) == nil {
+					fixedScn = append(fixedScn, direct)
+				}
+				continue
+			}
 			runCase(c)
 		}
+	}
+	if len(fixedScn) > 0 {
+		c18Clients(r, fixedScn)
 	}
 	if r.ReplayFile != "" {
 		return
